@@ -30,7 +30,7 @@ def gen_transform(rng):
     if k == 'translate':
         return [k] + [rng.randint(-4, 4) for _ in range(3)]
     if k == 'scale':
-        return [k] + [rng.choice([1, 2, -1, 0.5]) for _ in range(3)]
+        return [k] + [rng.choice([1, 2, -1, 0.5, 3, 0.25]) for _ in range(3)]
     if k == 'rotate':
         ax = rng.choice([[1, 0, 0], [0, 1, 0], [0, 0, 1]])
         return [k] + ax + [rng.choice([0, 90, 180, 30])]
@@ -46,6 +46,15 @@ def gen_node(rng, depth, counter, allow_inst):
     counter[0] += 1
     n = {'id': 'node%d' % counter[0], 'transforms': [gen_transform(rng) for _ in range(rng.choice([0, 1, 1, 2, 3]))],
          'children': []}
+    if depth == 0 and rng.random() < 0.5:
+        # a top-level node (visited with matrix=None: its own Node.matrix object is handed down, not a
+        # product) that scales non-uniformly and instantiates a camera, a light and geometry directly
+        if rng.random() < 0.7:
+            n['transforms'].insert(rng.randint(0, len(n['transforms'])),
+                                   rng.choice([['scale', 1, rng.choice([2, 3, 0.5]), 1], ['scale', 2, 0.25, 3],
+                                               ['matrix', [1, 0, 0, 0, 0, rng.choice([2, 4]), 0, 1, 0, 0, 0.5, 0, 0, 0, 0, 1]]]))
+        n['children'] += [['cam', rng.randint(0, 3)], ['light', rng.randint(0, 3)], ['geom', rng.randint(0, 3)]]
+        rng.shuffle(n['children'])
     for _ in range(rng.choice([1, 1, 2, 3])):
         r = rng.random()
         if r < 0.5:
@@ -165,7 +174,7 @@ def gen_doc(rng):
     counter = [0]
     spec = {'kind': 'ctor' if r < 0.7 else 'reload', 'image': rng.random() < 0.5,
             'geoms': [gen_geom(rng) for _ in range(rng.choice([1, 1, 2, 3]))],
-            'cameras': [rng.choice(['persp', 'ortho']) for _ in range(rng.choice([0, 1, 2]))],
+            'cameras': [rng.choice(['persp', 'ortho']) for _ in range(rng.choice([0, 1, 1, 2, 2]))],
             'lights': [gen_light(rng) for _ in range(rng.choice([0, 1, 2, 3]))]}
     spec['libnodes'] = [gen_node(rng, 1, counter, False) for _ in range(rng.choice([0, 0, 1]))]
     spec['nodes'] = [gen_node(rng, 0, counter, bool(spec['libnodes'])) for _ in range(rng.choice([1, 1, 2]))]
